@@ -155,6 +155,10 @@ pub fn c09_alphabet(l: &Level) -> Vec<Tok> {
 
 /// the same holds while completing: with the separator somewhere left of the word being typed
 /// no option or command name may be offered (the data right of `--` is never a name)
+#[cfg(not(feature = "full"))]
+fn completion_clause(_u: &Unit, _unit: &Value, _p: &bpaf::OptionParser<Val>, _argv: &[Tok], _ctx: &mut Ctx) {}
+
+#[cfg(feature = "full")]
 fn completion_clause(u: &Unit, unit: &Value, p: &bpaf::OptionParser<Val>, argv: &[Tok], ctx: &mut Ctx) {
     let dd = match argv.iter().position(|t| t.0 == b"--") {
         Some(d) if d + 1 < argv.len() => d,
